@@ -80,7 +80,7 @@ def make_oracle(ck):
 
 
 def run(ck):
-    ck.prove(["Properties_C08", "Properties_C08b"], THEOREMS_A + THEOREMS_B)
+    ck.prove(["Properties_C08", "Properties_C08b", "Properties_Src2", "Properties_Src2b"], THEOREMS_A + THEOREMS_B + ["SRC_hmac", "SRC_cmphmac", "SRC_hmac_is_rfc2104", "SRC_cmphmac_accepts_iff_tag_matches"])
     exe = small_driver(ck)
     differential(ck, exe, gen_cases(ck), make_oracle(ck), env=small_env(ck), src=True)
     # tag field of real encrypted files
